@@ -120,11 +120,8 @@ def jobs(tier):
             else:
                 J("foam.dec0." + label, "foam_dec_h.c", "h_dec0_" + ent, ["foamFrBuffer0"], DEC_IN, cls="B", bound=DEC_B,
                   cbmc=D0_UNW, assumed=DEC_ASS)
-        elif tier == "thorough" and fmt == 0 and argf.count("C") == 1 and not nary:
-            # one code child whose tag is symbolic; shapes with two or more children / n-ary exhaust 8 GB (probed: RRec 'CC', Seq 'C*')
-            J("foam.dec0.%s.with_one_child" % label, "foam_dec_h.c", "h_dec0_" + ent, ["foamFrBuffer0"], DEC_IN, cls="B",
-              bound="buffer <= 12 bytes, one code child of any tag, recursion depth 2", defs=["-DV_DEC_MAX=12"], timeout=600,
-              cbmc=["--object-bits", "12", "--unwindset", "foamFrBuffer0.0:14,foamFrBuffer0:2,v_spec_len.0:14"], assumed=DEC_ASS)
+        # nodes WITH code children are not covered: the child's tag is symbolic and CBMC exhausts 8 GB / 600 s even for a
+        # 12-byte buffer and one child (probed: Ptr 'C', Cast 'tC', RRec 'CC', Seq 'C*').  Stated in the report.
         # -- foamFrBuffer, the tree builder (node construction costs ~10 s of symex per node: data tags in quick)
         if not has_code and (tier == "thorough" or data_tag or name in ("FOAM_BInt", "FOAM_Unimp")):
             fns = ["foamFrBuffer", "foamNewEmpty", "foamNewAlloc"]
